@@ -19,7 +19,7 @@ META = {
                'thorough': '3 pairs, reduced size 3'},
     'outside': ['equality of the eigenvalues with matrix EDMD: both reduce the same operator (similarity invariance), not re-proved', 'HOCUR pivoting', 'ef_tf / st_tf extras', 'rounding'],
     'assumptions': ['SVD / eig contracts; ties in |lambda - 1| excluded'],
-    'tv_per_scenario': {'quick': 0, 'thorough': 0},
+    'tv_per_scenario': {'quick': 1000, 'thorough': 1000},
     'replay_random': 6,
 }
 
